@@ -25,7 +25,12 @@ Definition xsf (xw : xworld) (x : nat) : bool := xs_pc (x_pc (xget xw x)).
 Definition xvf (xw : xworld) (t : nat) : option nat := xv_pc (x_pc (xget xw t)).
 Definition xof (xw : xworld) (t : nat) : bool := xo_pc (x_pc (xget xw t)).
 (* wake_waiters' acquiring CAS is attempted only on a word that shows a holder *)
-Definition xpcH (xp : xpc) : Prop := match xp with XvCas1 _ old => has old MU_ANY_LOCK = true | _ => True end.
+Definition xpcH (xp : xpc) : Prop :=
+  match xp with
+  | XvLoad1 k => k_wake k <> []
+  | XvCas1 k old => has old MU_ANY_LOCK = true /\ k_wake k <> []
+  | _ => True
+  end.
 
 Definition HXw (xw : xworld) : Prop := HX (xaf xw) (xsf xw) (xvf xw) (xof xw) (mw xw).
 Definition HXInv (xw : xworld) : Prop := HXw xw /\ forall t, xpcH (x_pc (xget xw t)).
@@ -131,6 +136,46 @@ Proof.
   - intros x. rewrite Es. apply H8.
 Qed.
 
+(* thread t, between mutex calls and outside every class of participants before and after the step, changes its own
+   waiting flag (the flag of its nsync_wait_n record), consumes a post of its own semaphore, and sets its next MuModel pc *)
+Lemma HXw_own xw m' q' t xs' : HXw xw -> (t < length (xthr xw))%nat ->
+  word m' = word (mw xw) -> queue m' = queue (mw xw) ->
+  (forall x, x <> t -> sem m' x = sem (mw xw) x) -> 0 <= sem m' t ->
+  (forall x, x <> t -> waiting m' x = waiting (mw xw) x) ->
+  (forall x, x <> t -> P m' x = P (mw xw) x) ->
+  P (mw xw) t = Idle -> (P m' t = Idle \/ entered (P m' t)) ->
+  wph2 (x_pc (xget xw t)) = false -> xs_pc (x_pc (xget xw t)) = false -> xv_pc (x_pc (xget xw t)) = None ->
+  xo_pc (x_pc (xget xw t)) = false ->
+  wph2 (x_pc xs') = false -> xs_pc (x_pc xs') = false -> xv_pc (x_pc xs') = None -> xo_pc (x_pc xs') = false ->
+  HXw (mk_xw m' q' (xferred xw) (lupd (xthr xw) t xs')).
+Proof.
+  intros HH Ht Ew Eq Es Es0 Ewt EP PI PN W0 S0 V0 O0 W1 S1 V1 O1. pose proof (HX_H7 _ _ _ _ _ HH) as [H7 H8].
+  set (xw' := mk_xw m' q' (xferred xw) (lupd (xthr xw) t xs')).
+  assert (forall p, xget xw' p = if Nat.eqb p t then xs' else xget xw p) as G by (intros p; now apply xget_upd).
+  assert (sp (P m' t) = false /\ forall mm y u, P m' t <> UsWakeV mm y u) as [SPt NVt].
+  { destruct PN as [-> | En]; [split; [reflexivity | discriminate]|].
+    destruct (entered_facts _ En) as (_ & _ & _ & _ & a & b). split; assumption. }
+  apply HXw_sw; auto.
+  - rewrite Eq. apply incl_refl.
+  - intros x. destruct (Nat.eq_dec x t) as [->|N]; [|left; now apply EP].
+    destruct PN as [E | En]; [left; congruence | right; split; assumption].
+  - rewrite O0. discriminate.
+  - intros a Ha. fold xw'. unfold agentx in *. destruct (Nat.eq_dec a t) as [->|N].
+    + exfalso. destruct Ha as [A | [A _]]; [rewrite PI in A; discriminate A|]. unfold xaf in A. rewrite W0 in A. discriminate A.
+    + rewrite EP, Ewt by exact N. unfold xaf in *. rewrite G. cbn [xferred xw']. destruct (Nat.eqb_spec a t); [contradiction | exact Ha].
+  - intros x Ix Wx. destruct (Nat.eq_dec x t) as [->|N]; [unfold kof in Ix; fold (P (mw xw) t) in Ix; rewrite PI in Ix; discriminate Ix|].
+    now rewrite Ewt in Wx.
+  - fold xw'. apply (H7_mono _ _ _ _ _ _ H7).
+    + intros x Sx Wx. destruct (Nat.eq_dec x t) as [->|N].
+      { exfalso. unfold xsf in Sx. rewrite G, Nat.eqb_refl in Sx. destruct Sx as [Sx | Sx]; congruence. }
+      rewrite Ewt in Wx by exact N. rewrite EP in Sx by exact N. left. split; [|split; [exact Wx | rewrite Es by exact N; lia]].
+      destruct Sx as [Sx | Sx]; [left; exact Sx | right]. unfold xsf in *. rewrite G in Sx.
+      destruct (Nat.eqb_spec x t); [contradiction | exact Sx].
+    + intros t' m0 x u E. rewrite EP; [exact E|]. intros ->. rewrite PI in E. discriminate E.
+    + intros t' x V. left. unfold xvf in *. rewrite G. destruct (Nat.eqb_spec t' t) as [E|N]; [|exact V]. rewrite E in V. congruence.
+  - intros x. destruct (Nat.eq_dec x t) as [->|N]; [exact Es0 | rewrite Es by exact N; apply H8].
+Qed.
+
 Lemma P_push_op w t o x : P (push_op w t o) x = P w x.
 Proof.
   unfold P. destruct (Nat.eq_dec x t) as [->|N]; [apply xkr_push_op|]. unfold push_op. now rewrite get_set_t_other.
@@ -149,7 +194,7 @@ Proof.
   destruct (mu_idle (mw xw) t) eqn:MI; try exact H0.
   assert (t < length (xthr xw))%nat as Ht by (apply xget_inb; rewrite Hx; discriminate).
   pose proof Hx as Hx'. unfold xget in Hx.
-  destruct o as [o'|m| |]; xn Hx; rewrite ?nth_lupd_same by exact Ht; cbn [x_pc x_ops x_rets];
+  destruct o as [o'|m| | |[m|]]; xn Hx; rewrite ?nth_lupd_same by exact Ht; cbn [x_pc x_ops x_rets];
     (apply HXw_local; [exact H0 | exact Ht | reflexivity | reflexivity | reflexivity | reflexivity | | | | | ]);
     rewrite ?Hx'; cbn [x_pc wph2 xs_pc xv_pc xo_pc]; try reflexivity; try discriminate;
     try (intros x; first [apply P_push_op | reflexivity]).
@@ -207,15 +252,15 @@ Proof.
     destruct xp; try apply HX0. destruct xo as [|o rest]; try apply HX0.
     destruct (mu_idle (mw xw0) t); try apply HX0.
     assert (t < length (xthr xw0))%nat as Ht by (apply xget_inb; rewrite Hx; discriminate).
-    unfold xget in Hx. destruct o as [o'|m| |]; xn Hx; rewrite ?nth_lupd_same by exact Ht; cbn [x_pc x_ops x_rets];
+    unfold xget in Hx. destruct o as [o'|m| | |[m|]]; xn Hx; rewrite ?nth_lupd_same by exact Ht; cbn [x_pc x_ops x_rets];
       (destruct (Nat.eq_dec t' t) as [->|N]; [rewrite nth_lupd_same by exact Ht | rewrite nth_lupd_other by exact N; apply HX0]);
       cbn [x_pc xpcH]; try exact I.
-    destruct (held (get (mw xw0) t)) as [m'|]; [destruct (mode_eqb m m')|]; exact I. }
+    all: destruct (held (get (mw xw0) t)) as [m'|]; [destruct (mode_eqb m m')|]; exact I. }
   pose proof (xbegin_hxw _ t H0) as H1. apply (xbegin_pinv _ t) in HP0. apply (xbegin_sinv _ t) in HS0.
   apply (xbegin_inv n Hn _ t) in HI0. clear H0 HX0.
   unfold xstep_thr. set (xw := xbegin xw0 t) in *. clearbody xw. clear xw0. cbv zeta.
   pose proof HI0 as (HI & HL & HT). destruct (HT t) as [Hp _].
-  pose proof HP0 as (HM & HC & HF). pose proof HS0 as (HQ & HA & HXA). pose proof (HXA t) as HXAt. pose proof (HXb t) as HXHt.
+  pose proof HP0 as (HM & HC & HF & HNH). pose proof HS0 as (HQ & HA & HXA). pose proof (HXA t) as HXAt. pose proof (HXb t) as HXHt.
   pose proof (HX_H7 _ _ _ _ _ H1) as [H7 H8].
   destruct (xget xw t) as [xp xo xr] eqn:Hx. cbn [x_pc x_ops x_rets] in *.
   assert (xp <> XIdle -> (t < length (xthr xw))%nat) as HtN.
@@ -383,8 +428,8 @@ Proof.
   - (* XkLoad *) assert (t < length (xthr xw))%nat as Ht by (apply HtN; discriminate).
     destruct c; [|destruct (cvq xw)]; cbn [fst]; try exact H1; xn Hx; hloc H1 Ht Hx'.
   - (* XkSelect *) assert (t < length (xthr xw))%nat as Ht by (apply HtN; discriminate).
-    destruct (if bc then sel_broadcast (wtype (mw xw)) (cvq xw) else sel_signal (wtype (mw xw)) (cvq xw)) as [[wk kp] allr].
-    destruct wk; cbn [fst]; xn Hx; hloc H1 Ht Hx'.
+    destruct (if bc then sel_broadcast (xrd xw) (cvq xw) else sel_signal (xrd xw) (cvq xw)) as [[wk kp] allr].
+    destruct wk as [|f wk']; [|destruct (nrec xw f)]; cbn [fst]; xn Hx; hloc H1 Ht Hx'.
   - (* XvLoad1 *) assert (t < length (xthr xw))%nat as Ht by (apply HtN; discriminate).
     destruct (xfer_wanted (wtype (mw xw)) (word (mw xw)) k); cbn [fst]; xn Hx;
       [|unfold wake_loop; destruct (k_wake k) eqn:Ek]; hloc H1 Ht Hx'.
@@ -392,8 +437,8 @@ Proof.
     unfold cas. destruct (wake_cas_old_eq old) as [-> _].
     destruct (Z.eqb_spec (word (mw xw)) old) as [Hc|Hc]; cbv beta iota.
     2:{ cbn [fst]. xn Hx. unfold wake_loop; destruct (k_wake k) eqn:Ek; hloc H1 Ht Hx'. }
-    destruct (xfer (wtype (mw xw)) (first_cant_acquire (wtype (mw xw)) old (k_wake k)) (k_wake k)) as [[moved stay] set_on].
-    cbn [fst]. xn Hx. cbn [xpcH] in HXHt. subst old.
+    destruct (xfer (nrec xw) (wtype (mw xw)) (first_cant_acquire (wtype (mw xw)) old (k_wake k)) (k_wake k)) as [[moved stay] set_on].
+    cbn [fst]. xn Hx. cbn [xpcH] in HXHt. apply proj1 in HXHt. subst old.
     match goal with |- HXw (mk_xw ?m ?q ?f (lupd _ _ ?x)) => set (m' := m); set (xs' := x); set (xw' := mk_xw m' q f (lupd (xthr xw) t xs')) end.
     assert (forall q, xget xw' q = if Nat.eqb q t then xs' else xget xw q) as G by (intros q; now apply xget_upd).
     pose proof H1 as (X1 & _).
@@ -529,6 +574,51 @@ Proof.
         rewrite E, Hx' in V. cbn [x_pc xv_pc] in V. injection V as <-. right.
         cbn [sem m' set_sem]. rewrite fupd_same. specialize (H8 p). lia.
     + intros x. specialize (SM x). specialize (H8 x). lia.
+  - (* XnStore0 *) assert (t < length (xthr xw))%nat as Ht by (apply HtN; discriminate). destruct Hp as (PI & _).
+    cbn [fst]. xn Hx.
+    apply HXw_own; try (rewrite Hx'; reflexivity); try reflexivity; try exact (H8 t); auto.
+    + intros x N. cbn [waiting set_waiting]. now apply fupd_other.
+  - (* XnEnq *) assert (t < length (xthr xw))%nat as Ht by (apply HtN; discriminate). destruct Hp as (PI & _).
+    destruct om as [m|]; cbn [fst]; xn Hx; (apply HXw_own; try (rewrite Hx'; reflexivity); try reflexivity; try exact (H8 t); auto).
+    + intros x N. cbn [waiting set_waiting set_pc set_t]. now apply fupd_other.
+    + intros x N. unfold P. now rewrite get_set_pc_other.
+    + right. unfold P. rewrite get_set_pc_same by (cbn [thr set_waiting]; rewrite Hlen; exact Ht). exact I.
+    + intros x N. cbn [waiting set_waiting]. now apply fupd_other.
+  - (* XnUnlock *) assert (t < length (xthr xw))%nat as Ht by (apply HtN; discriminate).
+    unfold mu_step. destruct (step (mw xw) t) as [m' e] eqn:E. xnorm.
+    assert (m' = fst (step (mw xw) t)) as Em by now rewrite E.
+    cbn [mw]. destruct (mu_pc_idle m' t); cbn [fst]; xn Hx; rewrite Em.
+    + apply (HXw_mu n Hn); auto; rewrite ?Hx'; reflexivity.
+    + apply (HXw_mu0 n Hn); auto; rewrite Hx'; reflexivity.
+  - (* XnReady *) assert (t < length (xthr xw))%nat as Ht by (apply HtN; discriminate).
+    destruct (cv_ready_time_load1_guard (b2z (waiting (mw xw) t))); cbn [fst]; xn Hx; hloc H1 Ht Hx'.
+  - (* XnSem *) assert (t < length (xthr xw))%nat as Ht by (apply HtN; discriminate). destruct Hp as (PI & _).
+    destruct c; [destruct (0 <? sem (mw xw) t) eqn:Es|]; cbn [fst]; try exact H1; xn Hx; [|hloc H1 Ht Hx'].
+    apply Z.ltb_lt in Es.
+    apply HXw_own; try (rewrite Hx'; reflexivity); try reflexivity; try exact (H8 t); auto.
+    + intros x N. cbn [sem set_sem]. now apply fupd_other.
+    + cbn [sem set_sem]. rewrite fupd_same. lia.
+  - (* XnDeq *) assert (t < length (xthr xw))%nat as Ht by (apply HtN; discriminate). destruct Hp as (PI & _).
+    destruct (waiting (mw xw) t && cv_dequeue_store1_guard (b2z (mem_id t (cvq xw)))); [destruct om as [m|]|]; cbn [fst]; xn Hx;
+      [| |hloc H1 Ht Hx'].
+    + apply HXw_own; try (rewrite Hx'; reflexivity); try reflexivity; try exact (H8 t); auto.
+      * intros x N. cbn [waiting set_waiting set_pc set_t]. now apply fupd_other.
+      * intros x N. unfold P. now rewrite get_set_pc_other.
+      * right. unfold P. rewrite get_set_pc_same by (cbn [thr set_waiting]; rewrite Hlen; exact Ht). exact I.
+    + apply HXw_own; try (rewrite Hx'; reflexivity); try reflexivity; try exact (H8 t); auto.
+      intros x N. cbn [waiting set_waiting]. now apply fupd_other.
+  - (* XnSpin *) assert (t < length (xthr xw))%nat as Ht by (apply HtN; discriminate). destruct Hp as (PI & _).
+    destruct (waiting (mw xw) t); [|destruct om as [m|]]; cbn [fst]; try exact H1; xn Hx; [|hloc H1 Ht Hx'].
+    apply HXw_own; try (rewrite Hx'; reflexivity); try reflexivity; try exact (H8 t); auto.
+    + intros x N. unfold P. now rewrite get_set_pc_other.
+    + right. unfold P. rewrite get_set_pc_same by (rewrite Hlen; exact Ht). exact I.
+  - (* XnReacq *) assert (t < length (xthr xw))%nat as Ht by (apply HtN; discriminate).
+    unfold mu_step. destruct (step (mw xw) t) as [m' e] eqn:E. xnorm.
+    assert (m' = fst (step (mw xw) t)) as Em by now rewrite E.
+    cbn [mw]. destruct (mu_pc_idle m' t); cbn [fst]; xn Hx.
+    + rewrite nth_lupd_same by exact Ht. cbn [x_ops x_rets]. rewrite Em.
+      apply (HXw_mu n Hn); auto; rewrite ?Hx'; reflexivity.
+    + rewrite Em. apply (HXw_mu0 n Hn); auto; rewrite Hx'; reflexivity.
 Qed.
 End HandoffX2.
 
@@ -538,10 +628,10 @@ Proof.
   destruct xp; try apply HX0. destruct xo as [|o rest]; try apply HX0.
   destruct (mu_idle (mw xw0) t); try apply HX0.
   assert (t < length (xthr xw0))%nat as Ht by (apply xget_inb; rewrite Hx; discriminate).
-  unfold xget in Hx. destruct o as [o'|m| |]; xn Hx; rewrite ?nth_lupd_same by exact Ht; cbn [x_pc x_ops x_rets];
+  unfold xget in Hx. destruct o as [o'|m| | |[m|]]; xn Hx; rewrite ?nth_lupd_same by exact Ht; cbn [x_pc x_ops x_rets];
     (destruct (Nat.eq_dec t' t) as [->|N]; [rewrite nth_lupd_same by exact Ht | rewrite nth_lupd_other by exact N; apply HX0]);
     cbn [x_pc xpcH]; try exact I.
-  destruct (held (get (mw xw0) t)) as [m'|]; [destruct (mode_eqb m m')|]; exact I.
+  all: destruct (held (get (mw xw0) t)) as [m'|]; [destruct (mode_eqb m m')|]; exact I.
 Qed.
 
 Lemma xstep_thr_xpch xw0 t c : (forall t', xpcH (x_pc (xget xw0 t'))) ->
@@ -584,15 +674,17 @@ Proof.
   - assert (t < length (xthr xw))%nat as Ht by (apply HtN; discriminate).
     destruct c; [|destruct (cvq xw)]; cbn [fst]; xn Hx; finh HXb Ht.
   - assert (t < length (xthr xw))%nat as Ht by (apply HtN; discriminate).
-    destruct (if bc then sel_broadcast (wtype (mw xw)) (cvq xw) else sel_signal (wtype (mw xw)) (cvq xw)) as [[wk kp] allr].
-    destruct wk; cbn [fst]; xn Hx; finh HXb Ht.
+    destruct (if bc then sel_broadcast (xrd xw) (cvq xw) else sel_signal (xrd xw) (cvq xw)) as [[wk kp] allr].
+    destruct wk as [|f wk']; [|destruct (nrec xw f)]; cbn [fst]; xn Hx; finh HXb Ht.
+    cbn [k_wake]. discriminate.
   - assert (t < length (xthr xw))%nat as Ht by (apply HtN; discriminate).
     destruct (xfer_wanted (wtype (mw xw)) (word (mw xw)) k) eqn:XW; cbn [fst]; xn Hx;
       [|unfold wake_loop; destruct (k_wake k)]; finh HXb Ht.
-    unfold xfer_wanted in XW. apply andb_prop in XW. destruct XW as [XW _]. apply andb_prop in XW. apply XW.
+    unfold xfer_wanted in XW. apply andb_prop in XW. destruct XW as [XW XW2]. apply andb_prop in XW. split; [apply XW|].
+    intros E. rewrite E in XW2. cbn [first_cant_acquire orb andb] in XW2. discriminate XW2.
   - assert (t < length (xthr xw))%nat as Ht by (apply HtN; discriminate).
     unfold cas. destruct (word (mw xw) =? wake_waiters_cas1_old old); cbv beta iota.
-    + destruct (xfer (wtype (mw xw)) (first_cant_acquire (wtype (mw xw)) old (k_wake k)) (k_wake k)) as [[moved stay] set_on].
+    + destruct (xfer (nrec xw) (wtype (mw xw)) (first_cant_acquire (wtype (mw xw)) old (k_wake k)) (k_wake k)) as [[moved stay] set_on].
       cbn [fst]. xn Hx. finh HXb Ht.
     + cbn [fst]. xn Hx. unfold wake_loop; destruct (k_wake k); finh HXb Ht.
   - assert (t < length (xthr xw))%nat as Ht by (apply HtN; discriminate). cbn [fst]. xn Hx. finh HXb Ht.
@@ -604,6 +696,23 @@ Proof.
     destruct (k_wake k) as [|p rest]; cbn [fst]; xn Hx; finh HXb Ht.
   - assert (t < length (xthr xw))%nat as Ht by (apply HtN; discriminate).
     cbn [fst]; xn Hx; unfold wake_loop; destruct (k_wake k); finh HXb Ht.
+  - assert (t < length (xthr xw))%nat as Ht by (apply HtN; discriminate). cbn [fst]. xn Hx. finh HXb Ht.
+  - assert (t < length (xthr xw))%nat as Ht by (apply HtN; discriminate).
+    destruct om as [m|]; cbn [fst]; xn Hx; finh HXb Ht.
+  - assert (t < length (xthr xw))%nat as Ht by (apply HtN; discriminate).
+    unfold mu_step. destruct (step (mw xw) t) as [m' e]. xnorm. cbn [mw].
+    destruct (mu_pc_idle m' t); cbn [fst]; xn Hx; finh HXb Ht.
+  - assert (t < length (xthr xw))%nat as Ht by (apply HtN; discriminate).
+    destruct (cv_ready_time_load1_guard (b2z (waiting (mw xw) t))); cbn [fst]; xn Hx; finh HXb Ht.
+  - assert (t < length (xthr xw))%nat as Ht by (apply HtN; discriminate).
+    destruct c; [destruct (0 <? sem (mw xw) t)|]; cbn [fst]; xn Hx; finh HXb Ht.
+  - assert (t < length (xthr xw))%nat as Ht by (apply HtN; discriminate).
+    destruct (waiting (mw xw) t && cv_dequeue_store1_guard (b2z (mem_id t (cvq xw)))); [destruct om as [m|]|]; cbn [fst]; xn Hx; finh HXb Ht.
+  - assert (t < length (xthr xw))%nat as Ht by (apply HtN; discriminate).
+    destruct (waiting (mw xw) t); [|destruct om as [m|]]; cbn [fst]; xn Hx; finh HXb Ht.
+  - assert (t < length (xthr xw))%nat as Ht by (apply HtN; discriminate).
+    unfold mu_step. destruct (step (mw xw) t) as [m' e]. xnorm. cbn [mw].
+    destruct (mu_pc_idle m' t); cbn [fst]; xn Hx; rewrite ?lupd_lupd; finh HXb Ht.
 Qed.
 
 (* ----- all the invariants of the wrapper together ----- *)
@@ -682,8 +791,9 @@ Qed.
 (* what an asleep thread is doing *)
 Lemma x_asleep_cases n xw t : XInv n xw -> x_asleep xw t ->
   (exists l, x_pc (xget xw t) = XwSem l /\ (0 <? sem (mw xw) t) = false) \/
-  ((x_pc (xget xw t) = XIdle \/ exists l, x_pc (xget xw t) = XwReacq l) /\
-   exists m l, P (mw xw) t = LsSemP m l /\ (0 <? sem (mw xw) t) = false).
+  ((x_pc (xget xw t) = XIdle \/ (exists l, x_pc (xget xw t) = XwReacq l) \/ (exists m, x_pc (xget xw t) = XnReacq m)) /\
+   exists m l, P (mw xw) t = LsSemP m l /\ (0 <? sem (mw xw) t) = false) \/
+  (exists om, x_pc (xget xw t) = XnSem om /\ (0 <? sem (mw xw) t) = false).
 Proof.
   intros (HI & HL & HT) A. destruct (HT t) as [Hp _]. unfold x_asleep, xstep_thr in A.
   destruct (x_pc (xget xw t)) eqn:EX.
@@ -693,18 +803,20 @@ Proof.
     unfold xbegin in A. cbv zeta in A. rewrite EX in A.
     destruct (x_ops (xget xw t)) as [|o rest] eqn:EO.
     { rewrite EX in A. unfold mu_step in A. destruct (step (mw xw) t) as [m' e] eqn:E. cbn [snd] in A.
-      right. split; [now left|]. apply AS. cbn [snd]. congruence. }
+      right; left. split; [now left|]. apply AS. cbn [snd]. congruence. }
     destruct (mu_idle (mw xw) t) eqn:MI.
     2:{ rewrite EX in A. unfold mu_step in A. destruct (step (mw xw) t) as [m' e] eqn:E. cbn [snd] in A.
-        right. split; [now left|]. apply AS. cbn [snd]. congruence. }
+        right; left. split; [now left|]. apply AS. cbn [snd]. congruence. }
     exfalso. assert (t < length (xthr xw))%nat as Ht.
     { apply xget_inb. intros E. rewrite E in EO. discriminate EO. }
-    destruct o as [o'|m| |]; revert A; unfold set_xpc, set_xt, set_mw, xget; cbn [mw cvq xferred xthr];
+    destruct o as [o'|m| | |[m|]]; revert A; unfold set_xpc, set_xt, set_mw, xget; cbn [mw cvq xferred xthr];
       rewrite ?lupd_lupd, ?nth_lupd_same by exact Ht; cbn [x_pc x_ops x_rets].
     + unfold mu_step. cbn [mw]. destruct (step (push_op (mw xw) t o') t) as [m' e] eqn:E. cbn [snd]. intros A.
       apply (push_step_not_blocked (mw xw) t o' MI). rewrite E. cbn [snd]. congruence.
     + destruct (held (get (mw xw) t)) as [m'|]; [destruct (mode_eqb m m')|]; cbn [snd]; discriminate.
     + cbn [snd]. discriminate.
+    + cbn [snd]. discriminate.
+    + destruct (held (get (mw xw) t)) as [m'|]; [destruct (mode_eqb m m')|]; cbn [snd]; discriminate.
     + cbn [snd]. discriminate.
   - rewrite xbegin_nonidle in A by (rewrite EX; discriminate). cbv zeta in A. rewrite EX in A. discriminate A.
   - rewrite xbegin_nonidle in A by (rewrite EX; discriminate). cbv zeta in A. rewrite EX in A. discriminate A.
@@ -729,16 +841,16 @@ Proof.
   - (* XwReacq *) rewrite xbegin_nonidle in A by (rewrite EX; discriminate). cbv zeta in A. rewrite EX in A.
     unfold mu_step in A. destruct (step (mw xw) t) as [m' e] eqn:E.
     assert (e = EvBlocked) as -> by (destruct (mu_pc_idle (mw (set_mw xw m')) t); cbn [snd] in A; congruence).
-    right. split; [right; eauto|]. apply asleep_pc. unfold h_asleep. rewrite E. reflexivity.
+    right; left. split; [right; left; eauto|]. apply asleep_pc. unfold h_asleep. rewrite E. reflexivity.
   - rewrite xbegin_nonidle in A by (rewrite EX; discriminate). cbv zeta in A. rewrite EX in A. discriminate A.
   - rewrite xbegin_nonidle in A by (rewrite EX; discriminate). cbv zeta in A. rewrite EX in A.
-    destruct (if bc then sel_broadcast (wtype (mw xw)) (cvq xw) else sel_signal (wtype (mw xw)) (cvq xw)) as [[wk kp] allr].
-    destruct wk; discriminate A.
+    destruct (if bc then sel_broadcast (xrd xw) (cvq xw) else sel_signal (xrd xw) (cvq xw)) as [[wk kp] allr].
+    destruct wk as [|f wk']; [|destruct (nrec xw f)]; discriminate A.
   - rewrite xbegin_nonidle in A by (rewrite EX; discriminate). cbv zeta in A. rewrite EX in A.
     destruct (xfer_wanted (wtype (mw xw)) (word (mw xw)) k); discriminate A.
   - rewrite xbegin_nonidle in A by (rewrite EX; discriminate). cbv zeta in A. rewrite EX in A.
     unfold cas in A. destruct (word (mw xw) =? wake_waiters_cas1_old old); cbv beta iota in A;
-      [destruct (xfer (wtype (mw xw)) (first_cant_acquire (wtype (mw xw)) old (k_wake k)) (k_wake k)) as [[moved stay] set_on]|];
+      [destruct (xfer (nrec xw) (wtype (mw xw)) (first_cant_acquire (wtype (mw xw)) old (k_wake k)) (k_wake k)) as [[moved stay] set_on]|];
       discriminate A.
   - rewrite xbegin_nonidle in A by (rewrite EX; discriminate). cbv zeta in A. rewrite EX in A. discriminate A.
   - rewrite xbegin_nonidle in A by (rewrite EX; discriminate). cbv zeta in A. rewrite EX in A.
@@ -747,6 +859,27 @@ Proof.
   - rewrite xbegin_nonidle in A by (rewrite EX; discriminate). cbv zeta in A. rewrite EX in A.
     destruct (k_wake k); discriminate A.
   - rewrite xbegin_nonidle in A by (rewrite EX; discriminate). cbv zeta in A. rewrite EX in A. discriminate A.
+  - (* XnStore0 *) rewrite xbegin_nonidle in A by (rewrite EX; discriminate). cbv zeta in A. rewrite EX in A. discriminate A.
+  - (* XnEnq *) rewrite xbegin_nonidle in A by (rewrite EX; discriminate). cbv zeta in A. rewrite EX in A.
+    destruct om; discriminate A.
+  - (* XnUnlock *) exfalso. rewrite xbegin_nonidle in A by (rewrite EX; discriminate). cbv zeta in A. rewrite EX in A.
+    cbn [xpc_ok] in Hp. rename Hp into U.
+    unfold mu_step in A. destruct (step (mw xw) t) as [m' e] eqn:E.
+    assert (e = EvBlocked) as -> by (destruct (mu_pc_idle (mw (set_mw xw m')) t); cbn [snd] in A; congruence).
+    assert (snd (step (mw xw) t) = EvBlocked) as B by (rewrite E; reflexivity).
+    destruct (asleep_pc _ _ B) as (m0 & l0 & Pc & _). unfold P in Pc. rewrite Pc in U. discriminate U.
+  - (* XnReady *) rewrite xbegin_nonidle in A by (rewrite EX; discriminate). cbv zeta in A. rewrite EX in A.
+    destruct (cv_ready_time_load1_guard (b2z (waiting (mw xw) t))); discriminate A.
+  - (* XnSem *) rewrite xbegin_nonidle in A by (rewrite EX; discriminate). cbv zeta in A. rewrite EX in A.
+    right; right. exists om. split; [reflexivity|]. destruct (0 <? sem (mw xw) t); [discriminate A | reflexivity].
+  - (* XnDeq *) rewrite xbegin_nonidle in A by (rewrite EX; discriminate). cbv zeta in A. rewrite EX in A.
+    destruct (waiting (mw xw) t && cv_dequeue_store1_guard (b2z (mem_id t (cvq xw)))); [destruct om|]; discriminate A.
+  - (* XnSpin *) rewrite xbegin_nonidle in A by (rewrite EX; discriminate). cbv zeta in A. rewrite EX in A.
+    destruct (waiting (mw xw) t); [|destruct om]; discriminate A.
+  - (* XnReacq *) rewrite xbegin_nonidle in A by (rewrite EX; discriminate). cbv zeta in A. rewrite EX in A.
+    unfold mu_step in A. destruct (step (mw xw) t) as [m' e] eqn:E.
+    assert (e = EvBlocked) as -> by (destruct (mu_pc_idle (mw (set_mw xw m')) t); cbn [snd] in A; congruence).
+    right; left. split; [right; right; eauto|]. apply asleep_pc. unfold h_asleep. rewrite E. reflexivity.
 Qed.
 
 Section Quiescent.
@@ -757,16 +890,18 @@ Hypothesis Hn : Z.of_nat n < 16777215.
 Lemma quiescent_facts xw : AllInv n xw -> x_quiescent xw ->
   (forall x, x_pc (xget xw x) <> XIdle \/ P (mw xw) x <> Idle ->
      (exists l, x_pc (xget xw x) = XwSem l /\ (0 <? sem (mw xw) x) = false) \/
-     ((x_pc (xget xw x) = XIdle \/ exists l, x_pc (xget xw x) = XwReacq l) /\
-      exists m l, P (mw xw) x = LsSemP m l /\ (0 <? sem (mw xw) x) = false)) /\
+     ((x_pc (xget xw x) = XIdle \/ (exists l, x_pc (xget xw x) = XwReacq l) \/ (exists m, x_pc (xget xw x) = XnReacq m)) /\
+      exists m l, P (mw xw) x = LsSemP m l /\ (0 <? sem (mw xw) x) = false) \/
+     (exists om, x_pc (xget xw x) = XnSem om /\ (0 <? sem (mw xw) x) = false)) /\
   (forall a, agentx (xaf xw) (mw xw) a -> False).
 Proof.
   intros (HI & HS & HP & HT & (HH & _)) Q.
   pose proof HI as (HI0 & HL & HTt).
   assert (forall x, x_pc (xget xw x) <> XIdle \/ P (mw xw) x <> Idle ->
      (exists l, x_pc (xget xw x) = XwSem l /\ (0 <? sem (mw xw) x) = false) \/
-     ((x_pc (xget xw x) = XIdle \/ exists l, x_pc (xget xw x) = XwReacq l) /\
-      exists m l, P (mw xw) x = LsSemP m l /\ (0 <? sem (mw xw) x) = false)) as NQ.
+     ((x_pc (xget xw x) = XIdle \/ (exists l, x_pc (xget xw x) = XwReacq l) \/ (exists m, x_pc (xget xw x) = XnReacq m)) /\
+      exists m l, P (mw xw) x = LsSemP m l /\ (0 <? sem (mw xw) x) = false) \/
+     (exists om, x_pc (xget xw x) = XnSem om /\ (0 <? sem (mw xw) x) = false)) as NQ.
   { intros x Nx. assert (x < length (xthr xw))%nat as Lx.
     { destruct Nx as [Nx | Nx].
       - apply xget_inb. intros E. rewrite E in Nx. now apply Nx.
@@ -776,23 +911,27 @@ Proof.
   split; [exact NQ|].
   assert (forall x l, x_pc (xget xw x) = XwSem l -> P (mw xw) x = Idle) as SemIdle.
   { intros x l E. destruct (HTt x) as [Hp _]. rewrite E in Hp. apply Hp. }
+  assert (forall x om, x_pc (xget xw x) = XnSem om -> P (mw xw) x = Idle) as NSemIdle.
+  { intros x om E. destruct (HTt x) as [Hp _]. rewrite E in Hp. apply Hp. }
   assert (forall t' m' x u, P (mw xw) t' = UsWakeV m' x u -> False) as W1.
-  { intros t' m' x u E. destruct (NQ t' ltac:(right; rewrite E; discriminate)) as [(l & X & _) | (_ & m0 & l0 & X & _)].
+  { intros t' m' x u E. destruct (NQ t' ltac:(right; rewrite E; discriminate)) as [(l & X & _) | [(_ & m0 & l0 & X & _) | (om & X & _)]].
     - rewrite (SemIdle _ _ X) in E. discriminate E.
-    - rewrite X in E. discriminate E. }
+    - rewrite X in E. discriminate E.
+    - rewrite (NSemIdle _ _ X) in E. discriminate E. }
   assert (forall t' x, xvf xw t' = Some x -> False) as W2.
   { intros t' x E. unfold xvf in E.
-    destruct (NQ t' ltac:(left; intros X; rewrite X in E; discriminate E)) as [(l & X & _) | ([X | [l X]] & _)];
+    destruct (NQ t' ltac:(left; intros X; rewrite X in E; discriminate E)) as [(l & X & _) | [([X | [[l X] | [m X]]] & _) | (om & X & _)]];
       rewrite X in E; discriminate E. }
   pose proof HH as (H1 & H2 & H3 & H4 & H5 & H6 & H7 & H8 & H9 & H10 & H11).
   intros a [A | [A B]].
   - assert (P (mw xw) a <> Idle) as Na by (intros E; rewrite E in A; discriminate A).
-    destruct (NQ a (or_intror Na)) as [(l & X & _) | (_ & m & l & Pa & Sa)]; [elim Na; exact (SemIdle _ _ X)|].
+    destruct (NQ a (or_intror Na)) as [(l & X & _) | [(_ & m & l & Pa & Sa) | (om & X & _)]];
+      [elim Na; exact (SemIdle _ _ X) | | elim Na; exact (NSemIdle _ _ X)].
     rewrite Pa in A. cbn [agent_pc] in A. apply negb_true_iff in A. apply Z.ltb_ge in Sa.
     destruct (H7 a ltac:(left; rewrite Pa; reflexivity) A) as [S | [(t' & m' & u & E) | [t' E]]]; [lia | exact (W1 _ _ _ _ E) | exact (W2 _ _ E)].
   - unfold xaf in A. apply andb_prop in A. destruct A as [A _].
-    destruct (NQ a ltac:(left; intros X; rewrite X in A; discriminate A)) as [(l & X & Sa) | ([X | [l X]] & _)];
-      [|rewrite X in A; discriminate A | rewrite X in A; discriminate A].
+    destruct (NQ a ltac:(left; intros X; rewrite X in A; discriminate A)) as [(l & X & Sa) | [([X | [[l X] | [m X]]] & _) | (om & X & _)]];
+      [|rewrite X in A; discriminate A | rewrite X in A; discriminate A | rewrite X in A; discriminate A | rewrite X in A; discriminate A].
     apply Z.ltb_ge in Sa.
     destruct (H7 a ltac:(right; unfold xsf; rewrite X; reflexivity) B) as [S | [(t' & m' & u & E) | [t' E]]]; [lia | exact (W1 _ _ _ _ E) | exact (W2 _ _ E)].
 Qed.
@@ -835,11 +974,12 @@ Proof.
     destruct (H10 eq_refl) as [[o Ho] | [o Ho]].
     + assert (P (mw xw) o <> Idle) as No by (intros E; rewrite kofP, E in Ho; discriminate Ho).
       pose proof HI as (_ & _ & HTt). destruct (HTt o) as [Hp _].
-      destruct (NQ o (or_intror No)) as [(l & X & _) | (_ & m & l & Po & _)].
+      destruct (NQ o (or_intror No)) as [(l & X & _) | [(_ & m & l & Po & _) | (om & X & _)]].
       * rewrite X in Hp. elim No. apply Hp.
       * rewrite kofP, Po in Ho. discriminate Ho.
+      * rewrite X in Hp. elim No. apply Hp.
     + unfold xof in Ho.
-      destruct (NQ o ltac:(left; intros X; rewrite X in Ho; discriminate Ho)) as [(l & X & _) | ([X | [l X]] & _)];
+      destruct (NQ o ltac:(left; intros X; rewrite X in Ho; discriminate Ho)) as [(l & X & _) | [([X | [[l X] | [m X]]] & _) | (om & X & _)]];
         rewrite X in Ho; discriminate Ho.
 Qed.
 
